@@ -26,7 +26,7 @@ import dill as pickle  # schwimmbad.MultiPool is built on multiprocess, which pi
 
 import numpy as np
 
-from tjverif import recgen, session
+from tjverif import oracle, recgen, session
 
 _POOLS = {}
 
@@ -292,6 +292,15 @@ def run(ctx):
                         n_ep_ = len(pb.lin.t)
                         want_ = base - n_ep_ * np.log(session.gen.conv(1.0, pb.dspec["unit"], nu_))
                         okf = np.isfinite(want_) & np.isfinite(other_unit)
+                        # ... judged on rows whose value is numerically well determined only (C01's measured round-off below 1e-6):
+                        # with t_ref=False and a quadratic trend, say, the design is near-singular and any change of unit moves the
+                        # value by far more than a fixed allowance
+                        pick_ = [int(r_) for r_ in rng.choice(N, size=min(N, 5), replace=False)]
+                        well_ = np.zeros(N, dtype=bool)
+                        for r_ in pick_:
+                            z_ = oracle.z_column(pb.lin, pb.tagP[r_], pb.rows["e"][r_], pb.rows["omega"][r_], pb.rows["M0"][r_])
+                            well_[r_] = oracle.marginal(pb.lin, z_, pb.tagP[r_], pb.rows["e"][r_], pb.s_seen[r_], want_post=False)["tol"] < 1e-6
+                        okf &= well_
                         # (only on flat / moderately informative data: on sharply peaked likelihoods the rounding of the unit
                         # conversion itself moves values by more than any fixed relative allowance - that regime is C07's, with
                         # measured tolerances)
